@@ -644,6 +644,10 @@ func generate(r *runner) {
 		n2, d2 := g.evolve(n1, 3, "")
 		r.run("chain", []*Model{m, n1, n2}, strings.Join(d1, ",")+" / "+strings.Join(d2, ","))
 	}
+	// 5. names that need quoting (Go oracle only)
+	generateIdents(r)
+	// 6. runs into one output directory
+	generateOutdir(r)
 	c.Res.Extra["streams"] = fmt.Sprintf("create=%d pairs=%d identity=%d chains=%d", nCreate, nPair, nPair/10, nChain)
 }
 
